@@ -1,5 +1,30 @@
 package main
 
+// C14 — curve, field and pairing arithmetic equal the mathematical operations.
+//
+// Streams (each line is replayed on the Lean model by Drive/C14.lean):
+//   group ops on the public point types          c14_group.go
+//   raw projective/extended formulas (impl level) c14_proj.go   (also evaluated on the GENERATED formulas)
+//   base/scalar field arithmetic                  c14_field.go
+//   BLS12-381 pairing relations (Go-side only)    c14_pairing.go
+
+import (
+	"math/big"
+
+	aimpl "github.com/bronlabs/bron-crypto/pkg/base/algebra/impl"
+	"github.com/bronlabs/bron-crypto/pkg/base/curves/curve25519"
+	"github.com/bronlabs/bron-crypto/pkg/base/curves/edwards25519"
+	edwards25519Impl "github.com/bronlabs/bron-crypto/pkg/base/curves/edwards25519/impl"
+	"github.com/bronlabs/bron-crypto/pkg/base/curves/k256"
+	k256Impl "github.com/bronlabs/bron-crypto/pkg/base/curves/k256/impl"
+	"github.com/bronlabs/bron-crypto/pkg/base/curves/p256"
+	p256Impl "github.com/bronlabs/bron-crypto/pkg/base/curves/p256/impl"
+	"github.com/bronlabs/bron-crypto/pkg/base/curves/pairable/bls12381"
+	bls12381Impl "github.com/bronlabs/bron-crypto/pkg/base/curves/pairable/bls12381/impl"
+	"github.com/bronlabs/bron-crypto/pkg/base/curves/pasta"
+	pastaImpl "github.com/bronlabs/bron-crypto/pkg/base/curves/pasta/impl"
+)
+
 func init() { register("C14", runC14) }
 
 func runC14(c *Ctx) {
@@ -12,4 +37,208 @@ func runC14(c *Ctx) {
 	c.Emit("gen ed25519", pointStr(cEd25519.Generator()))
 	c.Emit("zero k256", pointStr(cK256.OpIdentity()))
 	c.Emit("zero ed25519", pointStr(cEd25519.OpIdentity()))
+
+	// ---- group operations on the public types
+	gK := mkGroup("k256", cK256, func(p *k256.Point) string { return pointStr(p) },
+		func(p *k256.Point, s []byte) *k256.Point {
+			var r k256.Point
+			aimpl.ScalarMulLowLevel(&r.V, &p.V, s)
+			return &r
+		})
+	gP := mkGroup("p256", cP256, func(p *p256.Point) string { return pointStr(p) },
+		func(p *p256.Point, s []byte) *p256.Point {
+			var r p256.Point
+			aimpl.ScalarMulLowLevel(&r.V, &p.V, s)
+			return &r
+		})
+	gPa := mkGroup("pallas", cPallas, func(p *pasta.PallasPoint) string { return pointStr(p) },
+		func(p *pasta.PallasPoint, s []byte) *pasta.PallasPoint {
+			var r pasta.PallasPoint
+			aimpl.ScalarMulLowLevel(&r.V, &p.V, s)
+			return &r
+		})
+	gVe := mkGroup("vesta", cVesta, func(p *pasta.VestaPoint) string { return pointStr(p) },
+		func(p *pasta.VestaPoint, s []byte) *pasta.VestaPoint {
+			var r pasta.VestaPoint
+			aimpl.ScalarMulLowLevel(&r.V, &p.V, s)
+			return &r
+		})
+	gG1 := mkGroup("bls12381g1", cBLSG1, func(p *bls12381.PointG1) string { return pointStr(p) },
+		func(p *bls12381.PointG1, s []byte) *bls12381.PointG1 {
+			var r bls12381.PointG1
+			aimpl.ScalarMulLowLevel(&r.V, &p.V, s)
+			return &r
+		})
+	gG2 := mkGroup("bls12381g2", cBLSG2, func(p *bls12381.PointG2) string { return pointStr(p) },
+		func(p *bls12381.PointG2, s []byte) *bls12381.PointG2 {
+			var r bls12381.PointG2
+			aimpl.ScalarMulLowLevel(&r.V, &p.V, s)
+			return &r
+		})
+	gEd := mkGroup("ed25519", cEd25519, func(p *edwards25519.PrimeSubGroupPoint) string { return pointStr(p) },
+		func(p *edwards25519.PrimeSubGroupPoint, s []byte) *edwards25519.PrimeSubGroupPoint {
+			var r edwards25519.PrimeSubGroupPoint
+			aimpl.ScalarMulLowLevel(&r.V, &p.V, s)
+			return &r
+		})
+
+	q := 1
+	if c.Thorough() {
+		q = 8
+	}
+	runGroup(c, gK, 1, q)
+	runGroup(c, gP, 2, q)
+	runGroup(c, gPa, 3, q)
+	runGroup(c, gVe, 4, q)
+	runGroup(c, gG1, 5, q)
+	runGroup(c, gG2, 6, q)
+	runGroup(c, gEd, 7, q)
+	runGroup(c, mkEdFull(c), 8, q)
+	runGroup(c, mkCurve25519(c), 9, q)
+
+	// ---- raw projective / extended formulas at the impl level
+	
+
+	c14WProj(c, "k256", 11, q, implSeeds(c.Seed, gK, func(p *k256.Point) *k256Impl.Point { return &p.V }))
+	c14WProj(c, "p256", 12, q, implSeeds(c.Seed, gP, func(p *p256.Point) *p256Impl.Point { return &p.V }))
+	c14WProj(c, "pallas", 13, q, implSeeds(c.Seed, gPa, func(p *pasta.PallasPoint) *pastaImpl.PallasPoint { return &p.V }))
+	c14WProj(c, "vesta", 14, q, implSeeds(c.Seed, gVe, func(p *pasta.VestaPoint) *pastaImpl.VestaPoint { return &p.V }))
+	c14WProj(c, "bls12381g1", 15, q, implSeeds(c.Seed, gG1, func(p *bls12381.PointG1) *bls12381Impl.G1Point { return &p.V }))
+	c14WProj(c, "bls12381g2", 16, q, implSeeds(c.Seed, gG2, func(p *bls12381.PointG2) *bls12381Impl.G2Point { return &p.V }))
+	edFull := mkEdFull(c)
+	c14EProj(c, "ed25519", 17, q, implSeeds(c.Seed, edFull, func(p *edwards25519.Point) *edwards25519Impl.Point { return &p.V }))
+
+	// ---- fields
+	c14Fields(c, q)
+
+	// ---- pairing (Go-side algebraic relations only; not modelled)
+	c14Pairing(c, q)
+}
+
+// mkEdFull: the full edwards25519 curve type (cofactor 8), including small-order points.
+func mkEdFull(c *Ctx) *c14Group[*edwards25519.Point] {
+	cv := edwards25519.NewCurve()
+	sf := edwards25519.NewScalarField()
+	raw := func(p *edwards25519.Point, s []byte) *edwards25519.Point {
+		var r edwards25519.Point
+		aimpl.ScalarMulLowLevel(&r.V, &p.V, s)
+		return &r
+	}
+	g := &c14Group[*edwards25519.Point]{
+		cn: "ed25519full", n: fieldOrder(sf),
+		id: cv.OpIdentity(), gen: cv.PrimeSubGroupGenerator(),
+		str:     func(p *edwards25519.Point) string { return edImplStr(&p.V) },
+		add:     func(a, b *edwards25519.Point) *edwards25519.Point { return a.Add(b) },
+		sub:     func(a, b *edwards25519.Point) *edwards25519.Point { return a.Sub(b) },
+		dbl:     func(a *edwards25519.Point) *edwards25519.Point { return a.Double() },
+		neg:     func(a *edwards25519.Point) *edwards25519.Point { return a.Neg() },
+		eq:      func(a, b *edwards25519.Point) bool { return a.Equal(b) },
+		isid:    func(a *edwards25519.Point) bool { return a.IsOpIdentity() },
+		smul:    func(a *edwards25519.Point, k *big.Int) *edwards25519.Point { return a.ScalarMul(scalarFromBig(sf, k)) },
+		smulRaw: raw,
+		msm: func(ks []*big.Int, ps []*edwards25519.Point) (*edwards25519.Point, error) {
+			scs := make([]*edwards25519.Scalar, len(ks))
+			for i, k := range ks {
+				scs[i] = scalarFromBig(sf, k)
+			}
+			return cv.MultiScalarMul(scs, ps)
+		},
+	}
+	// small-order points: [n]·P for curve points P outside the prime subgroup
+	g.extra = edTorsion(g, func(y uint64) *edwards25519.Point {
+		var yb [32]byte
+		yb[0] = byte(y)
+		yb[1] = byte(y >> 8)
+		p, err := cv.FromCompressed(yb[:])
+		if err != nil {
+			return nil
+		}
+		return p
+	})
+	return g
+}
+
+// mkCurve25519: curve25519's point type wraps the same Edwards impl point (Montgomery coordinates are
+// only its external affine view); its group operations are checked against the Edwards model.
+func mkCurve25519(c *Ctx) *c14Group[*curve25519.Point] {
+	cv := curve25519.NewCurve()
+	sf := curve25519.NewScalarField()
+	raw := func(p *curve25519.Point, s []byte) *curve25519.Point {
+		var r curve25519.Point
+		aimpl.ScalarMulLowLevel(&r.V, &p.V, s)
+		return &r
+	}
+	g := &c14Group[*curve25519.Point]{
+		cn: "curve25519", n: fieldOrder(sf),
+		id: cv.OpIdentity(), gen: cv.PrimeSubGroupGenerator(),
+		str:     func(p *curve25519.Point) string { return edImplStr(&p.V) },
+		add:     func(a, b *curve25519.Point) *curve25519.Point { return a.Add(b) },
+		sub:     func(a, b *curve25519.Point) *curve25519.Point { return a.Sub(b) },
+		dbl:     func(a *curve25519.Point) *curve25519.Point { return a.Double() },
+		neg:     func(a *curve25519.Point) *curve25519.Point { return a.Neg() },
+		eq:      func(a, b *curve25519.Point) bool { return a.Equal(b) },
+		isid:    func(a *curve25519.Point) bool { return a.IsOpIdentity() },
+		smul:    func(a *curve25519.Point, k *big.Int) *curve25519.Point { return a.ScalarMul(scalarFromBig(sf, k)) },
+		smulRaw: raw,
+	}
+	// the 2-torsion point (0,-1): (n)·(G + T2) is not reachable without FromAffine in Edwards
+	// coordinates; use [n]·P for P = hash outputs outside the subgroup when available.
+	return g
+}
+
+func edImplStr(v *edwards25519Impl.Point) string {
+	if v.IsZero() == 1 {
+		return "inf"
+	}
+	var x, y edwards25519Impl.Fp
+	if ok := v.ToAffine(&x, &y); ok == 0 {
+		return "err:affine"
+	}
+	return leHex(x.Bytes()) + ":" + leHex(y.Bytes())
+}
+
+func leHex(b []byte) string {
+	be := make([]byte, len(b))
+	for i := range b {
+		be[len(b)-1-i] = b[i]
+	}
+	return new(big.Int).SetBytes(be).Text(16)
+}
+
+// edTorsion returns points of order 2, 4 and 8 (as many as found) of the full Edwards curve.
+func edTorsion[P any](g *c14Group[P], fromY func(uint64) P) []P {
+	nLE := bigLE(g.n, 32)
+	var out []P
+	seen := map[string]bool{"inf": true}
+	for y := uint64(2); y < 400 && len(out) < 6; y++ {
+		p := fromY(y)
+		if any(p) == nil || isNilPtr(p) {
+			continue
+		}
+		t := g.smulRaw(p, nLE)
+		// also multiples of t
+		cur := t
+		for i := 0; i < 8; i++ {
+			s := g.str(cur)
+			if !seen[s] {
+				seen[s] = true
+				out = append(out, cur)
+			}
+			cur = g.add(cur, t)
+		}
+	}
+	return out
+}
+
+func bigLE(v *big.Int, minLen int) []byte {
+	be := v.Bytes()
+	n := len(be)
+	if n < minLen {
+		n = minLen
+	}
+	out := make([]byte, n)
+	for i := range be {
+		out[len(be)-1-i] = be[i]
+	}
+	return out
 }
